@@ -81,7 +81,6 @@ BASE = dict(TopNames='{"a", "dd"}', DirNames='{"dd"}', ChildNames='{"x"}', SubDi
             MaxRevs=2, MaxEdits=2, MaxParents=2, NMsg=1, NWho=1, NTs=1, NTz=1, MetaChoices=1, TagNames='{"t1"}',
             Pointless="FALSE", NewRoots="TRUE")
 INVARIANTS = ("GenWF", "DropEmptyDirsLaws", "ProjectionIdFree", "LawsHoldOnSpec")
-WITNESSES = ("WitnessEmptyDir", "WitnessNestedEmpty", "WitnessKindChange", "WitnessMergeRename", "WitnessTag")
 
 
 def consts(**kw):
@@ -91,7 +90,7 @@ def consts(**kw):
 
 
 TREES = consts()                                                       # tree-edit richness, <= 2 revisions
-GRAPH = consts(TopNames='{"a", "bb"}', DirNames="{}", ChildNames="{}", SubDirs="FALSE", MaxRevs=3, MaxEdits=1,
+GRAPH = consts(TopNames='{"a"}', DirNames="{}", ChildNames="{}", SubDirs="FALSE", MaxRevs=3, MaxEdits=1,
                TagNames="{}")                                          # every graph <= 3 revisions (merges, roots)
 TREES_T = consts(NContents=2)                                          # thorough: two contents / link targets
 GRAPH_T = consts(TopNames='{"a", "bb"}', DirNames="{}", ChildNames="{}", SubDirs="FALSE", MaxRevs=4, MaxEdits=1,
@@ -152,17 +151,23 @@ def universe(ctx, nsmall, nlarge, max_revs):
     """E1 (exhaustive in-spec laws) + E2 (histories to replay).  Returns the list of distinct histories."""
     q = ctx.quick
     for name, c in (("trees", TREES if q else TREES_T), ("graph", GRAPH if q else GRAPH_T)):
-        tlc.check(ctx, "HistoryChannelGen", cfg_text=vtable.cfg(c, INVARIANTS), label="exhaustive " + name, timeout=3000)
-    for i, w in enumerate(WITNESSES):
-        witness_by_simulation(ctx, dict(LARGE, MaxRevs=4, MinRevs=3), w, ctx.seed * 100 + i)
+        res = tlc.check(ctx, "HistoryChannelGen", cfg_text=vtable.cfg(c, INVARIANTS), label="exhaustive " + name, timeout=3000)
+        full = c["MaxRevs"] * (c["MaxEdits"] + 1) + 2          # a complete session with every edit used, + Finish
+        if res.get("depth") != full:
+            ctx.machinery("exhaustive %s: state graph depth %s, complete sessions need %d" % (name, res.get("depth"), full))
+    # anti-vacuity of the antecedents in LawsHoldOnSpec: finished histories with an empty directory, an executable
+    # file and a tag; with a merge of two different trees (the other classes are checked on the replayed histories)
+    tlc.check(ctx, "HistoryChannelGen", cfg_text=vtable.cfg(TREES, ("WitnessEmptyDir",)), expect_violation="WitnessEmptyDir",
+              label="witness WitnessEmptyDir")
+    witness_by_simulation(ctx, dict(GRAPH, MinRevs=3), "WitnessAsymMerge", ctx.seed * 100 + 1)
     hs = simulate_histories(ctx, SMALL, nsmall, 30, ctx.seed * 10 + 1, "simulate small")
-    # (revisions, edits per commit, parents per merge, several roots); histories with several roots are kept to one run
-    runs = [(max_revs, 3, 2, "FALSE"), (max_revs, 2, 2, "FALSE"), (max_revs, 1, 2, "FALSE"), (3, 3, 2, "TRUE")] + \
-        ([] if q else [(max_revs, 3, 3, "FALSE"), (4, 2, 2, "TRUE")])
-    for k, (mr, me, mp, nr) in enumerate(runs):
-        hs += simulate_histories(ctx, dict(LARGE, MaxRevs=mr, MinRevs=min(mr, 3), MaxEdits=me, MaxParents=mp, NewRoots=nr),
-                                 nlarge // len(runs) + 1, 45, ctx.seed * 10 + 2 + k,
-                                 "simulate large, <= %d revisions, <= %d edits, <= %d parents, roots %s" % (mr, me, mp, nr))
+    # (revisions, parents per merge, several roots, share); histories with several roots are kept to a small share
+    runs = [(max_revs, 2, "FALSE", 0.8), (3, 2, "TRUE", 0.2)] if q else \
+        [(max_revs, 2, "FALSE", 0.5), (max_revs, 3, "FALSE", 0.3), (4, 2, "TRUE", 0.2)]
+    for k, (mr, mp, nr, share) in enumerate(runs):
+        hs += simulate_histories(ctx, dict(LARGE, MaxRevs=mr, MinRevs=min(mr, 3), MaxParents=mp, NewRoots=nr),
+                                 int(nlarge * share) + 1, 45, ctx.seed * 10 + 2 + k,
+                                 "simulate large, <= %d revisions, <= %d parents, roots %s" % (mr, mp, nr))
     seen, out = set(), []
     for h in hs:
         k = hkey(h)
@@ -667,6 +672,19 @@ def minimise(h, run, budget=80):
                     break
             if progress:
                 break
+    # canonical edit: a plain content change of the object at its old path, when that fails in the same way
+    n = len(cur["P"])
+    if cur["P"][n - 1]:
+        bo = {e["o"]: e for e in cur["T"][cur["P"][n - 1][0] - 1]}
+        for e in list(cur["T"][n - 1]):
+            b = bo.get(e["o"])
+            if b is not None and b != e and b["k"] != "directory":
+                e2 = dict(b, c=2 if b["c"] == 1 else 1)
+                if e2 != e:
+                    c = dict(cur, T=cur["T"][:-1] + [sorted([g for g in cur["T"][n - 1] if g["o"] != e["o"]] + [e2],
+                                                            key=lambda g: g["p"])])
+                    if still(c):
+                        cur = c
     # canonical by-standing attributes: plain non-executable files with content 1 wherever the failure does not care
     for obj in sorted({e["o"] for t in cur["T"] for e in t}):
         for fields in (("k", "c", "x"), ("x",), ("c",)):
@@ -707,7 +725,7 @@ def change_classes(h):
     if not h["P"][n - 1]:
         for e in h["T"][n - 1]:
             f.add("root-has-" + e["k"])
-        return f
+        return f or {"any-revision"}
     base = h["T"][h["P"][n - 1][0] - 1]
     bo = {e["o"]: e for e in base}
     bp = {tuple(e["p"]): e for e in base}
@@ -750,7 +768,7 @@ def class_string(h):
     with something inside is one class whatever is put inside."""
     f = change_classes(h)
     if any(c.startswith("kind-") and c.endswith("-to-directory-with-children") for c in f):
-        f = {c for c in f if c.endswith("-to-directory-with-children") or c in ("merge", "second-root")}
+        f = {"nondirectory-becomes-directory-with-children"} | (f & {"merge", "second-root"})
     return "+".join(sorted(f))
 
 
